@@ -66,6 +66,12 @@ func parseRoute(node *treeNode, path string, method string, info *RouteInfo) (pa
 		return 0, errors.New("invalid method " + method + " for routePath: " + path)
 	}
 
+	// Every fragment is expected to start with '/': a routePath written without the
+	// leading slash is rooted like a request path is, instead of losing its first byte.
+	if path == "" || path[0] != '/' {
+		path = "/" + path
+	}
+
 	// Check every fragment before the tree is touched:
 	// a rejected routePath must not leave nodes behind that change how other routes are found.
 	var paramNameList, nodeNameList []string
